@@ -137,6 +137,11 @@ func w2Gen(r *rand.Rand, prop, tier string) *simrt.Case {
 			}
 			c.Program = append(c.Program, simrt.Op{Actor: 200, Kind: "sleep", A: wait}, simrt.Op{Actor: 200, Kind: "failover", B: int64(r.IntN(2))})
 		}
+		if r.IntN(4) == 0 {
+			// a group write fails once: the request that needed it is answered with an error, the client
+			// retries, and the retry must leave the store as the coordinator has it
+			c.Faults = append(c.Faults, simrt.Fault{Kind: "store.err", Op: "store.PutConsumerGroup", Nth: r.IntN(8)})
+		}
 	default: // C12, C14
 		g := int64(r.IntN(2))
 		for m := 0; m < nm; m++ {
